@@ -867,6 +867,10 @@ func (r *runningStep) provideEnablingInput(input map[string]any) error {
 	// This is an optional field, so no input means enabled.
 	enabled := input["enabled"] == nil || input["enabled"] == true
 	r.enabledInputAvailable = true
+	// The step is not waiting for input anymore, even if it has not picked the input up yet.
+	if r.state == step.RunningStepStateWaitingForInput && r.currentStage == StageIDEnabling {
+		r.state = step.RunningStepStateRunning
+	}
 	r.enabledInput <- enabled
 	return nil
 }
@@ -899,6 +903,10 @@ func (r *runningStep) provideStartingInput(input map[string]any) error {
 
 	// Make sure we transition the state before unlocking so there are no race conditions.
 	r.runInputAvailable = true
+	// The step is not waiting for input anymore, even if it has not picked the input up yet.
+	if r.state == step.RunningStepStateWaitingForInput && r.currentStage == StageIDStarting {
+		r.state = step.RunningStepStateRunning
+	}
 
 	// Unlock before passing the data over the channel to prevent a deadlock.
 	// The other end of the channel needs to be unlocked to read the data.
@@ -1188,7 +1196,12 @@ func (r *runningStep) enableStage() (bool, bool) {
 	previousStage := string(r.currentStage)
 	r.currentStage = StageIDEnabling
 	enabledInputAvailable := r.enabledInputAvailable
-	r.state = step.RunningStepStateWaitingForInput
+	if enabledInputAvailable {
+		// The input has already been provided, so this step is not waiting for it.
+		r.state = step.RunningStepStateRunning
+	} else {
+		r.state = step.RunningStepStateWaitingForInput
+	}
 	r.lock.Unlock()
 
 	r.stageChangeHandler.OnStageChange(
@@ -1229,22 +1242,22 @@ func (r *runningStep) startStage(container deployer.Plugin) (bool, int64, error)
 	r.lock.Unlock()
 
 	var runInput runInput
-	var newState step.RunningStepState
 	select {
 	case runInput = <-r.runInput:
 		// Good. It received it immediately.
-		newState = step.RunningStepStateRunning
 		inputReceivedEarly = true
 	default: // The default makes it not wait.
-		newState = step.RunningStepStateWaitingForInput
 		inputReceivedEarly = false
 	}
 
 	enabledOutput := any(map[any]any{"enabled": true})
-	// End Enabling with resolved output, and start starting
+	// End Enabling with resolved output, and start starting.
+	// The state stays running while the stage change is announced: the workflow can only provide the
+	// input of this stage once it knows that the enabling stage is finished, so the step must not be
+	// reported as waiting for input before that.
 	r.transitionStageWithOutput(
 		StageIDStarting,
-		newState,
+		step.RunningStepStateRunning,
 		schema.PointerTo("resolved"),
 		&enabledOutput,
 	)
@@ -1253,10 +1266,10 @@ func (r *runningStep) startStage(container deployer.Plugin) (bool, int64, error)
 	// If not yet available, set to state waiting for input and do a blocking receive.
 	// If it is available, continue.
 	if !inputReceivedEarly {
-		// Input is not yet available. Now waiting.
+		// Input is not yet available. Now waiting, unless it has been provided in the meantime.
 		r.lock.Lock()
-		if r.state != step.RunningStepStateWaitingForInput {
-			r.logger.Warningf("State not waiting for input when receiving from channel.")
+		if !r.runInputAvailable {
+			r.state = step.RunningStepStateWaitingForInput
 		}
 		r.lock.Unlock()
 
